@@ -14,11 +14,27 @@ func init() {
 			"(C05-d) PortSet.Ports is the library's CanonicalSet and is assigned only from library constructors/operations. " +
 			"(C05-c-range) an interval built from runtime bounds (possibly empty: endPort below port) flows only into AddInterval / AddHole, which ignore an empty interval, never into ToSet(), which would yield a non-empty set of one empty interval. " +
 			"(C05-c-exact) the containment test that decides whether Subtract deletes a protocol entry compares numbered ports through the interval library's set comparisons only (a false negative leaves an empty port set in the map). " +
+			"(C05-a-peer-key) one peer per workload: the owners map is keyed by the stored peer's own String() - namespace, owner-or-pod name and kind (the key rules of C17) - so that the doubly nested pair loop yields one row per ordered pair of workloads. " +
 			"NOT decided: ports within 1..65535 (rule values are not validated anywhere; no static value ranges), uniqueness of peer strings for colliding names, the library's partition algorithm."
 		rules.GuardedRowConstruction(p, r, "C05-a")
 		rules.PairLoopShape(p, r, "C05-a-loop")
 		rules.PartitionCompleteness(p, r, "C05-b")
 		rules.PartitionInputsAreRanges(p, r, "C05-b-ranges")
+		// one row per ordered pair needs one PEER per workload: the owners map is keyed by the peer's own String() (the
+		// key rules of C17), on which the self-pair test of C05-a-pred relies too
+		{
+			sub := core.NewReport("C05")
+			rules.WorkloadExpansion(p, sub, "C05-a-peer")
+			n := 0
+			for _, o := range sub.Obs {
+				if o.Rule == "C05-a-peer-key" {
+					r.Add(o.Rule, o.Construct, o.Pos, o.Status, o.Reason, o.Path...)
+					n++
+				}
+			}
+			r.RuleCounts["C05-a-peer-key"] = n
+			r.Floor("C05-a-peer-key", 1)
+		}
 		rules.PortSetPredicateVocabulary(p, r, "C05-c-exact")
 		rules.CanonicalForm(p, r, "C05-c")
 		rules.IntervalCanonicity(p, r, "C05-d")
